@@ -6,6 +6,7 @@ def explore(run, lean):
     instr_corr.explore(run, "C21", 400 if run.tier == "quick" else 8000)
     instr_corr.long_history_probe(run, "C21", 560 if run.tier == "quick" else 1700)
     instr_corr.live_callback_probe(run, "C21", 20 if run.tier == "quick" else 500)
+    instr_corr.live_after_fabric_stop_probe(run, "C21")
     run.extra["rule"] = ("random spied charts (<=7 states) on an instrumented HsmWithQueues whose handlers post/defer/recall/scribble; "
                          "scripts of start_at + 2-12 client ops (posts, defer, recall, next_rtc), some with a post before start_at; "
                          "ring sizes real (250/500/500) or reduced (full spy 20-120, trace 2-5); scripted clocks (fine, coarse, "
